@@ -48,6 +48,9 @@ ASSUMPTIONS = [
     "tile has an empty source list, or the dict is empty) - the docstring promises an entry 'for every tile', so keys "
     "with empty lists are an empty graph; demanded when the gap is >= 2 px of both grids",
     "GeoBoxes without CRS are used only for pixel-plane bounding-box queries (world queries on a CRS-less box are undocumented)",
+    "back-end artefact (GEOS 3.13.1 in this image): intersects/disjoint is False for polygons one of whose edges lies exactly "
+    "inside an edge of the other while overlay area > 0, distance == 0 and the prepared predicate is True; a verdict that would "
+    "fail is first re-examined and, if the back-end contradicts itself on the very two polygons, counted as excluded instead",
 ]
 SHARDS = {"quick": 4, "thorough": 16}
 
@@ -976,7 +979,7 @@ def _tile_polys(ye, xe, fn):
     return shapely.polygons(P), idx
 
 
-def _demand_area_edges(edges, dpolys, dareas, didx, sye, sxe, dye, dxe, frac, tol_area, what):
+def _demand_area_edges(edges, dpolys, dareas, didx, sye, sxe, dye, dxe, frac, tol_area, what, artefact=None):
     """Every (dst, src) pair whose overlap area is >= frac of the smaller tile must be an edge. Returns #dst with sources."""
     import shapely
 
@@ -984,7 +987,7 @@ def _demand_area_edges(edges, dpolys, dareas, didx, sye, sxe, dye, dxe, frac, to
     sareas = shapely.area(sboxes)
     ok = ~shapely.is_empty(dpolys)
     tree = shapely.STRtree(sboxes)
-    di, si = tree.query(dpolys[ok], predicate="intersects")
+    di, si = tree.query(dpolys[ok])  # candidates by bounding box; decided by overlay area below
     di = np.nonzero(ok)[0][di]
     inter = shapely.area(shapely.intersection(dpolys[di], sboxes[si]))
     need = inter >= frac * np.minimum(dareas[di], sareas[si]) + tol_area
@@ -993,6 +996,8 @@ def _demand_area_edges(edges, dpolys, dareas, didx, sye, sxe, dye, dxe, frac, to
         dt, stl = didx[i], sidx[j]
         with_src.add(dt)
         have = edges.get(dt)
+        if (have is None or stl not in have) and artefact is not None and artefact(dt, stl, have):
+            continue
         require(
             have is not None and stl in have,
             "%s: dst tile %r (rows %s cols %s) overlaps src tile %r (rows %s cols %s) by %.4g src px^2 (%.3g%% of the smaller tile) but the edge is missing; listed: %s",
@@ -1023,7 +1028,12 @@ def o_graph_rot(case, T):
     edges = _check_graph(res, dye, dxe, sye, sxe)
     dpolys, didx = _tile_polys(dye, dxe, fn)
     dareas = shapely.area(dpolys)
-    nd_with = _demand_area_edges(edges, dpolys, dareas, didx, sye, sxe, dye, dxe, 0.01, 4 * noise * (max(snx, sny) + 1), "same CRS, rotated")
+    def artefact(dt, stl, have):
+        if have is None:  # first stage of the code: destination tile against the source raster footprint
+            return _backend_contradiction(T, sgbt.base.extent, dgbt[dt].extent)
+        return _backend_contradiction(T, dgbt[dt].extent, sgbt[stl].extent)
+
+    nd_with = _demand_area_edges(edges, dpolys, dareas, didx, sye, sxe, dye, dxe, 0.01, 4 * noise * (max(snx, sny) + 1), "same CRS, rotated", artefact)
     # raster-level gap
     Draster = shapely.Polygon(fn(np.array([[0, 0], [nx, 0], [nx, ny], [0, ny]], dtype="float64")))
     gap = float(Draster.distance(shapely.box(0, 0, snx, sny)))
@@ -1151,7 +1161,13 @@ def o_graph_other(case, T):
 
     res = dgbt.grid_intersect(sgbt)
     edges = _check_graph(res, dye, dxe, sye, sxe)
-    nd_with = _demand_area_edges(edges, eroded, dareas, didx, sye, sxe, dye, dxe, 0.01, 0.0, "dst in %s, src in %s" % (la, lb))
+    def artefact(dt, stl, have):
+        if have is None:  # first stage of the code: destination tile against the common footprint
+            fp = (sgbt.base.footprint(4326, 2) & dgbt.base.footprint(4326, 2)).to_crs(dgbt.base.crs)
+            return _backend_contradiction(T, fp, dgbt[dt].extent)
+        return _backend_contradiction(T, dgbt[dt].extent.to_crs(sgbt.base.crs, check_and_fix=True), sgbt[stl].extent)
+
+    nd_with = _demand_area_edges(edges, eroded, dareas, didx, sye, sxe, dye, dxe, 0.01, 0.0, "dst in %s, src in %s" % (la, lb), artefact)
     gap_s = float(shapely.Polygon(Dout).distance(shapely.box(0, 0, snx, sny)))
     gap_d = float(shapely.Polygon(Sout).distance(shapely.box(0, 0, nx, ny)))
     dmax = float(deltas.max())
